@@ -219,7 +219,7 @@ def value_of(entry):
     if t == "bool":
         return {"True": True, "False": False}.get(v["val"])
     if t == "string":
-        return v
+        return ("str", v)
     if isinstance(v, dict) and "vals" in v:
         return ("var", sorted(v["vals"]))
     return ("obj", v)
